@@ -29,6 +29,7 @@ func init() {
 			{"C10-R3", "STRICT is explicit and TLS-only", c10r3},
 			{"C10-R4", "oldest policy wins", c10r4},
 			{"C10-R5", "ambient conversion: wider levels are consulted only where the narrower ones are UNSET", c10r5},
+			{"C10-R6", "who may use a namespace/mesh-level mode directly", c10r6},
 		},
 	})
 }
@@ -449,6 +450,23 @@ func c10r5(c *Ctx) {
 					nAbsent = append(nAbsent, Edge{i.Block(), tIdx})
 				}
 			}
+			// a flag `nsCfg == nil || isUnset(ns)`: a phi of `true` and the call
+			if ph, ok := v.(*ssa.Phi); ok {
+				all, hasCall := true, false
+				for _, e := range ph.Edges {
+					if b, isC := constBool(e); isC && b {
+						continue
+					}
+					if call, ok := e.(*ssa.Call); ok && isCallTo(call, unsetFn) && level(call.Call.Args[0]) == "namespace" {
+						hasCall = true
+						continue
+					}
+					all = false
+				}
+				if all && hasCall {
+					nAbsent = append(nAbsent, Edge{i.Block(), tIdx})
+				}
+			}
 			if x, eq, ok := nilCmp(v); ok && level(x) == "namespace" && rootOf(x, 0) == "nsCfg" {
 				if _, isPtr := x.Type().Underlying().(*types.Pointer); isPtr {
 					idx := tIdx
@@ -486,15 +504,178 @@ func c10r5(c *Ctx) {
 			n++
 			ord[lv]++
 			site := fmt.Sprintf(" (%s-level test #%d of the per-port decision)", lv, ord[lv])
-			c.Check("ambient: "+lv+"-level mode consulted only where the workload level is UNSET"+site, call.Pos(), underEdges(f, call.Block(), wUnset),
+			// where the result is branched on: the If on the call itself, or on a flag (phi) it feeds
+			useBlock := call.Block()
+			var follow func(v ssa.Value, d int) *ssa.BasicBlock
+			follow = func(v ssa.Value, d int) *ssa.BasicBlock {
+				if d > 4 || v.Referrers() == nil {
+					return nil
+				}
+				for _, ref := range *v.Referrers() {
+					switch x := ref.(type) {
+					case *ssa.If:
+						return x.Block()
+					case *ssa.Phi:
+						if b := follow(x, d+1); b != nil {
+							return b
+						}
+					case *ssa.UnOp:
+						if b := follow(x, d+1); b != nil {
+							return b
+						}
+					}
+				}
+				return nil
+			}
+			if b := follow(call.Value(), 0); b != nil {
+				useBlock = b
+			}
+			c.Check("ambient: "+lv+"-level mode consulted only where the workload level is UNSET"+site, call.Pos(), underEdges(f, useBlock, wUnset),
 				"the "+lv+"-level mode is tested on a path that has not established that the workload-level mode is UNSET: a "+lv+"-level STRICT can then stand in for an explicit workload-level PERMISSIVE/DISABLE (the port's STRICT rule is dropped as 'enforced by the parent' although the parent is not STRICT), so ztunnel and a sidecar derive different modes for the port")
 			if lv == "mesh" {
-				c.Check("ambient: mesh-level mode consulted only where the namespace level is absent or UNSET"+site, call.Pos(), underEdges(f, call.Block(), nAbsent),
+				c.Check("ambient: mesh-level mode consulted only where the namespace level is absent or UNSET"+site, call.Pos(), underEdges(f, useBlock, nAbsent),
 					"the mesh-level mode is tested on a path where a namespace-level mode may be set: the mesh level overrides the namespace level")
+			}
+		}
+	}
+	// (c) a namespace policy that exists but leaves the mode UNSET inherits like an absent one: the conclusion "the
+	// namespace level is not STRICT" is only drawn where the namespace mode is known to be set, or is followed by a test
+	// of its UNSET-ness before anything is decided.
+	for _, f := range fns {
+		if f == fn {
+			continue
+		}
+		isNsUnsetCall := func(v ssa.Value) bool {
+			call, ok := v.(*ssa.Call)
+			return ok && isCallTo(call, unsetFn) && level(call.Call.Args[0]) == "namespace"
+		}
+		// edges on which the namespace mode is known to be set: !isUnset(ns), or the false edge of a flag
+		// `nsCfg == nil || isUnset(ns)` (a phi of `true` and the call)
+		var nsSet, nsNil []Edge
+		for _, i := range allIfs(f) {
+			v, neg := stripNot(i.Cond)
+			fIdx := 1
+			if neg {
+				fIdx = 0
+			}
+			if isNsUnsetCall(v) {
+				nsSet = append(nsSet, Edge{i.Block(), fIdx})
+			}
+			if ph, ok := v.(*ssa.Phi); ok {
+				all, hasCall := true, false
+				for _, e := range ph.Edges {
+					if b, isC := constBool(e); isC && b {
+						continue
+					}
+					if isNsUnsetCall(e) {
+						hasCall = true
+						continue
+					}
+					all = false
+				}
+				if all && hasCall {
+					nsSet = append(nsSet, Edge{i.Block(), fIdx})
+				}
+			}
+			if x, eq, ok := nilCmp(v); ok && rootOf(x, 0) == "nsCfg" {
+				if _, isPtr := x.Type().Underlying().(*types.Pointer); isPtr {
+					idx := 1 - fIdx // edge on which nsCfg IS nil
+					if !eq {
+						idx = fIdx
+					}
+					nsNil = append(nsNil, Edge{i.Block(), idx})
+				}
+			}
+		}
+		for _, call := range callsIn(f, strictFn) {
+			if level(call.Common().Args[0]) != "namespace" {
+				continue
+			}
+			if underEdges(f, call.Block(), nsSet) {
+				n++
+				c.Check("ambient: 'namespace level is not STRICT' is concluded only for a set namespace mode"+fmt.Sprintf(" (#%d)", ord["nsneg"]+1), call.Pos(), true, "")
+				ord["nsneg"]++
+				continue
+			}
+			// the not-STRICT edges of this call
+			for _, i := range allIfs(f) {
+				v, neg := stripNot(i.Cond)
+				if v != call.Value() {
+					continue
+				}
+				fIdx := 1
+				if neg {
+					fIdx = 0
+				}
+				ord["nsneg"]++
+				n++
+				isTest := func(ins ssa.Instruction) bool {
+					cl, ok := ins.(*ssa.Call)
+					return ok && isNsUnsetCall(cl)
+				}
+				isDecision := func(ins ssa.Instruction) bool {
+					switch x := ins.(type) {
+					case *ssa.Return, *ssa.Store, *ssa.MapUpdate:
+						return true
+					case *ssa.Call:
+						if isCallTo(x, strictFn, unsetFn) {
+							return false
+						}
+						if o := calleeObj(x); o != nil && strings.HasPrefix(o.Name(), "Get") {
+							return false
+						}
+						return true
+					}
+					return false
+				}
+				bad, found := pathAvoidingE(i.Block().Succs[fIdx], nil, isTest, isDecision, nsNil, nil)
+				pos := call.Pos()
+				if found && bad != nil && bad.Pos().IsValid() {
+					pos = bad.Pos()
+				}
+				c.Check("ambient: 'namespace level is not STRICT' is concluded only for a set namespace mode"+fmt.Sprintf(" (#%d)", ord["nsneg"]), pos, !found,
+					"the per-port decision concludes from a namespace policy that is merely present (its mode may be UNSET) that the inherited mode is not STRICT: an empty namespace-level PeerAuthentication then hides a STRICT mesh policy, the port's rule is skipped, and the workload ends up referencing a converted policy that is never published (plaintext accepted where a sidecar enforces STRICT)")
 			}
 		}
 	}
 	c.Check("ambient: workload-UNSET tests found", fn.Pos(), nW >= 2, "no test of the workload-level mode for UNSET in convertPeerAuthentication")
 	c.Check("ambient: inherited-level tests found", fn.Pos(), n >= 4, "fewer tests of namespace/mesh-level modes than confirmed by hand")
 	c.Floor(6)
+}
+
+
+// C10-R6: the namespace/mesh-level mode (GetNamespaceMutualTLSMode) ignores workload- and port-level policies. Who may
+// call it is frozen: a per-endpoint or per-port decision that consults it directly (e.g. as a fast path) lets the wider
+// level override a narrower DISABLE/PERMISSIVE, so client and server derive different modes.
+func c10r6(c *Ctx) {
+	p := c.P
+	obj := p.FuncObj(pkgModel, "AuthenticationPolicies", "GetNamespaceMutualTLSMode")
+	allowed := map[string]string{
+		"(*pilot/pkg/model.PushContext).BestEffortInferServiceMTLSMode": "documented best-effort per-service inference (no workload is known at cluster level); used only to choose the passthrough cluster's TLS context",
+	}
+	n := 0
+	for _, fn := range p.AllFuncs {
+		if strings.HasSuffix(p.Fset.Position(fn.Pos()).Filename, "_test.go") || fn.Synthetic != "" {
+			continue
+		}
+		eachInstr(fn, func(ins ssa.Instruction) {
+			ci, ok := ins.(ssa.CallInstruction)
+			if !ok {
+				return
+			}
+			hit := isCallTo(ins, obj)
+			if !hit && ci.Common().IsInvoke() && ci.Common().Method.Name() == "GetNamespaceMutualTLSMode" {
+				hit = true
+			}
+			if !hit {
+				return
+			}
+			n++
+			_, ok = allowed[stableFnName(fn)]
+			c.Check("namespace/mesh-level mode used directly only by a confirmed caller: "+stableFnName(fn), ins.Pos(), ok,
+				"this function decides from the namespace/mesh-level mTLS mode without composing the workload- and port-level policies: a narrower DISABLE or PERMISSIVE under a STRICT namespace is ignored here while the server side honours it (e.g. the client keeps sending mTLS to a port that terminates no TLS)")
+		})
+	}
+	c.Check("GetNamespaceMutualTLSMode callers found", token.NoPos, n >= 1, "no caller found")
+	c.Floor(2)
 }
